@@ -29,6 +29,8 @@ pub enum Input {
     Bytes(#[serde(with = "hexbytes")] Vec<u8>),
     /// structural bomb generated from (kind, n) at run time (up to 1 MiB)
     Bomb { kind: String, n: u32 },
+    /// deterministic battery of many small inputs enumerated inside one run (not seeded, not simulation: see rule)
+    Battery { kind: String, part: u32 },
 }
 
 #[derive(Clone, Debug, Serialize, Deserialize)]
@@ -255,6 +257,95 @@ pub fn bomb(kind: &str, n: u32) -> Vec<u8> {
     b
 }
 
+const GRID_LENGTHS: [usize; 18] = [0, 1, 2, 3, 4, 5, 6, 7, 8, 9, 10, 11, 12, 13, 14, 15, 16, 0xffff];
+const TAIL_FIRST_BYTES: [u8; 13] = [0x01, 0x02, 0x03, 0x21, 0x22, 0x34, 0x35, 0x37, 0x4a, 0x10, 0x4b, 0x00, 0xff];
+
+fn single_attr(tag: u8, value: &[u8]) -> Vec<u8> {
+    let mut b = vec![0x01, 0x01, 0x00, 0x00, 0x00, 0x00, 0x00, 0x01, 0x01];
+    elem(&mut b, tag, b"a", value);
+    b.push(0x03);
+    b
+}
+
+/// the inputs of one battery part
+pub fn battery(kind: &str, part: u32) -> Vec<Vec<u8>> {
+    let hdr = [0x01u8, 0x01, 0x00, 0x00, 0x00, 0x00, 0x00, 0x01];
+    let mut out = Vec::new();
+    match kind {
+        // every value tag 0x00-0xff x one value length x three fill patterns, as a single-attribute message
+        "grid" => {
+            let len = GRID_LENGTHS[part as usize % GRID_LENGTHS.len()];
+            for tag in 0..=255u8 {
+                for fill in 0..3 {
+                    let v: Vec<u8> = (0..len).map(|i| match fill { 0 => 0x00, 1 => 0xff, _ => i as u8 }).collect();
+                    out.push(single_attr(tag, &v));
+                }
+            }
+        }
+        // every string of up to 2 bytes after a valid header (part 0); 3-byte strings with a chosen first byte
+        "tails" => {
+            if part == 0 {
+                out.push(hdr.to_vec());
+                for a in 0..=255u8 {
+                    let mut m = hdr.to_vec();
+                    m.push(a);
+                    out.push(m);
+                }
+                for a in 0..=255u8 {
+                    for b in 0..=255u8 {
+                        let mut m = hdr.to_vec();
+                        m.push(a);
+                        m.push(b);
+                        out.push(m);
+                    }
+                }
+            } else {
+                let a = TAIL_FIRST_BYTES[(part as usize - 1) % TAIL_FIRST_BYTES.len()];
+                for b in 0..=255u8 {
+                    for c in 0..=255u8 {
+                        let mut m = hdr.to_vec();
+                        m.extend_from_slice(&[a, b, c]);
+                        out.push(m);
+                    }
+                }
+            }
+        }
+        // inner length pairs of the with-language syntaxes
+        _ => {
+            let lens: [u16; 13] = [0, 1, 2, 3, 4, 5, 6, 7, 8, 0x00ff, 0x0100, 0x7fff, 0xffff];
+            for tag in [0x35u8, 0x36] {
+                for total in 0..=12usize {
+                    for l1 in lens {
+                        for l2 in lens {
+                            let mut v = Vec::new();
+                            v.extend_from_slice(&l1.to_be_bytes());
+                            v.extend(std::iter::repeat(b'l').take((l1 as usize).min(6)));
+                            v.extend_from_slice(&l2.to_be_bytes());
+                            v.extend(std::iter::repeat(b't').take((l2 as usize).min(6)));
+                            v.resize(total, b'.');
+                            out.push(single_attr(tag, &v));
+                        }
+                    }
+                }
+            }
+        }
+    }
+    out
+}
+
+/// the deterministic batteries that follow the bombs in the run index space
+fn batteries(tier: Tier) -> Vec<(&'static str, u32)> {
+    let mut v: Vec<(&'static str, u32)> = (0..GRID_LENGTHS.len() as u32).map(|p| ("grid", p)).collect();
+    v.push(("tails", 0));
+    v.push(("inner_lengths", 0));
+    if tier == Tier::Thorough {
+        for p in 1..=TAIL_FIRST_BYTES.len() as u32 {
+            v.push(("tails", p));
+        }
+    }
+    v
+}
+
 /// per tier: the deterministic list of bombs that occupy the first run indices
 fn bombs(tier: Tier) -> Vec<(&'static str, u32)> {
     let mut v = Vec::new();
@@ -362,6 +453,11 @@ impl Prop for C02 {
             let mode = Mode::ALL[(run % 4) as usize];
             return Case { input: Input::Bomb { kind: k.to_string(), n }, mode, spec: SourceSpec::default(), style: "whole".into(), damage: vec![] };
         }
+        let bt = batteries(tier);
+        if (run as usize) < bl.len() + bt.len() {
+            let (k, p) = bt[run as usize - bl.len()];
+            return Case { input: Input::Battery { kind: k.to_string(), part: p }, mode: Mode::SyncParse, spec: SourceSpec::default(), style: "whole".into(), damage: vec![] };
+        }
         if rng.chance(1, 4000) {
             let mode = *rng.pick(&Mode::ALL);
             return Case { input: Input::Bomb { kind: "nested_seeded".into(), n: rng.next() as u32 }, mode, spec: SourceSpec::default(), style: "whole".into(), damage: vec![] };
@@ -389,8 +485,39 @@ impl Prop for C02 {
 
     fn run(&self, case: &Case, record: bool) -> RunReport {
         let mut rep = RunReport::default();
+        if let Input::Battery { kind, part } = &case.input {
+            let inputs = battery(kind, *part);
+            let mut agg = crate::rng::Fnv::default();
+            for b in inputs {
+                for mode in [Mode::SyncParse, Mode::AsyncParse] {
+                    let sub = Case { input: Input::Bytes(b.clone()), mode, spec: SourceSpec::default(), style: "whole".into(), damage: vec![] };
+                    let r = self.run(&sub, false);
+                    agg.u64(r.trace_hash);
+                    rep.count(&format!("battery.{kind}.inputs_x_front_ends"), 1);
+                    for (k, v) in &r.counters {
+                        if k.starts_with("outcome.") || k.starts_with("value_decoder.") {
+                            rep.count(k, *v);
+                        }
+                    }
+                    if let Some(v) = r.violation {
+                        rep.violation = Some(v);
+                        rep.reduced = serde_json::to_value(&sub).ok();
+                        rep.trace_hash = agg.finish();
+                        return rep;
+                    }
+                }
+            }
+            rep.count(&format!("battery.{kind}.parts_completed"), 1);
+            rep.trace_hash = agg.finish();
+            rep.nontrivial = true;
+            if record {
+                rep.log = Some(json!({"battery": kind, "part": part}));
+            }
+            return rep;
+        }
         let bytes = match &case.input {
             Input::Bytes(b) => b.clone(),
+            Input::Battery { .. } => unreachable!(),
             Input::Bomb { kind, n } => {
                 rep.count(&format!("bomb.{kind}"), 1);
                 bomb(kind, *n)
@@ -530,6 +657,7 @@ impl Prop for C02 {
     fn shrink(&self, c: &Case) -> Vec<Case> {
         let mut out = Vec::new();
         match &c.input {
+            Input::Battery { .. } => {}
             Input::Bomb { kind, n } => {
                 for m in [n / 2, n * 3 / 4, n * 7 / 8] {
                     if m >= 1 && m < *n {
@@ -559,12 +687,12 @@ impl Prop for C02 {
     }
     fn sample_runs(&self, tier: Tier) -> Vec<u64> {
         // one bomb and the first two seeded damaged streams
-        let b = bombs(tier).len() as u64;
+        let b = (bombs(tier).len() + batteries(tier).len()) as u64;
         vec![0, b, b + 1]
     }
 
     fn rule(&self) -> String {
-        "Fault-reachable inputs only: each run takes a reference-encoded seeded wire tree and applies 1-3 faults from a per-run random subset of 20 kinds (Byzantine printer: lying name/value lengths (+-1, 0, max, swallow-next), fixed-width values written with width 0-16, lying inner lengths of the with-language syntaxes, tag substitution by any byte, token delete / duplicate / swap / splice from another message, collection imbalance; in-flight: bit flips, byte overwrite, truncation with/without garbage tail, chunk drop / duplication / swap, garbage insertion), plus a fixed list of structural bombs per tier (nesting depth up to 100000 / 1 MiB in six shapes incl. named inner begins, member names in the name field and seeded mixes of shapes; set width, group and attribute count). The damaged stream is delivered under a seeded schedule to one of the four parser front ends; whatever comes back is displayed, re-encoded, traversed, cloned and dropped; then IppValue::parse is called on every (tag, value) element the reference tokenizer can still cut out. Runs execute on 2 MiB threads inside isolated worker processes; a killed worker is attributed to the run it was executing. Invariants: no panic, no process death, source calls <= 2*len + events + 64, <= 8 reads after EOF, executor poll bound, 240 s watchdog. distinct_nontrivial = distinct hashes of (input bytes prefix+length, front end, source call sequence) among damaged or bomb inputs longer than 9 bytes. NOT covered: the exhaustive (tag x length x fill) grid and the all-token-sequences-up-to-k enumeration of the quantifier."
+        "Fault-reachable inputs only: each run takes a reference-encoded seeded wire tree and applies 1-3 faults from a per-run random subset of 20 kinds (Byzantine printer: lying name/value lengths (+-1, 0, max, swallow-next), fixed-width values written with width 0-16, lying inner lengths of the with-language syntaxes, tag substitution by any byte, token delete / duplicate / swap / splice from another message, collection imbalance; in-flight: bit flips, byte overwrite, truncation with/without garbage tail, chunk drop / duplication / swap, garbage insertion), plus a fixed list of structural bombs per tier (nesting depth up to 100000 / 1 MiB in six shapes incl. named inner begins, member names in the name field and seeded mixes of shapes; set width, group and attribute count). The damaged stream is delivered under a seeded schedule to one of the four parser front ends; whatever comes back is displayed, re-encoded, traversed, cloned and dropped; then IppValue::parse is called on every (tag, value) element the reference tokenizer can still cut out. Runs execute on 2 MiB threads inside isolated worker processes; a killed worker is attributed to the run it was executing. Invariants: no panic, no process death, source calls <= 2*len + events + 64, <= 8 reads after EOF, executor poll bound, 240 s watchdog. distinct_nontrivial = distinct hashes of (input bytes prefix+length, front end, source call sequence) among damaged or bomb inputs longer than 9 bytes. After the bombs come deterministic batteries that are plain enumeration, not simulation, and are not what the level is claimed on: every value tag 0x00-0xff x value length {0..16, 0xffff} x three fill patterns as a single-attribute message; every string of up to 2 bytes (thorough: 3 bytes with 13 chosen first bytes) after a valid header; the inner length pairs of the with-language syntaxes — each through the blocking and the async parser and the value decoder. NOT covered: the all-token-sequences-up-to-k enumeration of the quantifier."
             .into()
     }
     fn assumptions(&self) -> Vec<String> {
